@@ -929,6 +929,58 @@ def post_C17(cases):
             out.append(("negative-programs", f"N {name}", "compiled" if r["compiled"] else "refused", "refused" if not r["should_compile"] else "compiled", what))
     return out
 
+def witness_programs(fp, prop):
+    """small standalone programs that replay a repaired defect on the repository (types the catalog cannot express);
+    `corpus/programs/<name>/{Cargo.toml.in, src/main.rs, expected.txt, props}`"""
+    pdir = os.path.join(VERIF, "corpus", "programs")
+    cdir = os.path.join(BUILD, "witness")
+    os.makedirs(cdir, exist_ok=True)
+    cache = os.path.join(cdir, f"result-{prop}-{fp}.json")
+    if os.path.exists(cache):
+        return json.load(open(cache))
+    lock_src = os.path.join(REPO, "Cargo.lock")
+    if not os.path.exists(lock_src):
+        lock_src = os.path.join(HARNESS_SRC, "Cargo.lock.repo")
+    res = {}
+    for name in sorted(os.listdir(pdir)) if os.path.isdir(pdir) else []:
+        src = os.path.join(pdir, name)
+        props = open(os.path.join(src, "props")).read().split() if os.path.exists(os.path.join(src, "props")) else []
+        if prop not in props:
+            continue
+        d = os.path.join(cdir, name)
+        shutil.rmtree(d, ignore_errors=True)
+        shutil.copytree(os.path.join(src, "src"), os.path.join(d, "src"))
+        open(os.path.join(d, "Cargo.toml"), "w").write(open(os.path.join(src, "Cargo.toml.in")).read().replace("@REPO@", REPO))
+        os.makedirs(os.path.join(d, ".cargo"), exist_ok=True)
+        open(os.path.join(d, ".cargo", "config.toml"), "w").write("[net]\noffline = true\n")
+        shutil.copy(lock_src, os.path.join(d, "Cargo.lock"))
+        e = dict(os.environ); e["CARGO_NET_OFFLINE"] = "true"; e["CARGO_TARGET_DIR"] = os.path.join(cdir, "target")
+        try:
+            pr = subprocess.run(["cargo", "run", "--offline", "--quiet"], cwd=d, env=e, stdout=subprocess.PIPE, stderr=subprocess.PIPE, timeout=900)
+            got = pr.stdout.decode("utf-8", "replace").strip().splitlines()
+            err = pr.stderr.decode("utf-8", "replace")[-400:]
+        except subprocess.TimeoutExpired:
+            got, err = ["TIMEOUT"], ""
+        want = open(os.path.join(src, "expected.txt")).read().strip().splitlines()
+        res[name] = dict(ok=(got == want), got=got, want=want, stderr="" if got == want else err)
+    for f in os.listdir(cdir):
+        if f.startswith(f"result-{prop}-"):
+            os.remove(os.path.join(cdir, f))
+    json.dump(res, open(cache, "w"))
+    return res
+def post_witness(prop):
+    def post(cases):
+        out = []
+        with Lock():
+            res = witness_programs(repo_fingerprint(), prop)
+        for name, r in res.items():
+            if not r["ok"]:
+                diff = next((f"line {i + 1}: got `{g}`, expected `{w}`" for i, (g, w) in enumerate(zip(r["got"] + ["<missing>"] * 9, r["want"])) if g != w), "output length differs")
+                out.append(("witness-programs", f"W {name}", " | ".join(r["got"]), " | ".join(r["want"]),
+                            f"witness program `{name}` (corpus/programs/{name}) does not behave as recorded: {diff}"))
+        return out
+    return post
+
 PROPS = {
     "C01": dict(module="FV.Props.C01", theorems=["FV.Props.C01_validate_total", "FV.Props.C01_from_bytes_total"], suites=["bytes"], proj=proj_C01, oracle=oracle_C01),
     "C02": dict(module="FV.Props.C02", theorems=["FV.Props.C02_view_within", "FV.Props.C02_truncation_validates"], suites=["bytes"], proj=proj_C02, oracle=oracle_C02),
@@ -939,8 +991,8 @@ PROPS = {
     "C18": dict(module="FV.Props.C18", theorems=["FV.Props.C18_vec_from_iterator_partial", "FV.Props.C18_flex_from_iterator_partial", "FV.Props.C18_nested_enum_counterexample"], suites=["emplace"], proj=proj_C18, oracle=oracle_C18),
     "C20": dict(module="FV.Props.C20", theorems=["FV.Props.C20_vec_default_partial", "FV.Props.C20_default_valid_partial", "FV.Props.C20_str_default_partial", "FV.Props.C20_flex_default_partial"], suites=["emplace"], proj=proj_C20, oracle=oracle_C20, post=post_C20),
     "C11": dict(module="FV.Props.C11", theorems=["FV.Props.C11_vec_step_refines", "FV.Props.C11_history", "FV.Props.C11_valid_gives_invariant"], suites=["ops"], proj=proj_C11, oracle=oracle_C11),
-    "C12": dict(module="FV.Props.C12", theorems=["FV.Props.C12_truncate_beyond_noop_partial", "FV.Props.C12_pop_empty_partial"], suites=["ops"], proj=proj_C12, oracle=oracle_C12),
-    "C13": dict(module="FV.Props.C13", theorems=["FV.Props.C13_vec_refused_unchanged"], suites=["ops"], proj=proj_C13, oracle=oracle_C13),
+    "C12": dict(module="FV.Props.C12", theorems=["FV.Props.C12_valid_iff_sequence", "FV.Props.C12_truncate", "FV.Props.C12_pop", "FV.Props.C12_push", "FV.Props.C12_history"], suites=["ops"], proj=proj_C12, oracle=oracle_C12, post=post_witness("C12")),
+    "C13": dict(module="FV.Props.C13", theorems=["FV.Props.C13_vec_refused_unchanged", "FV.Props.C13_flex_push_refused_unchanged"], suites=["ops"], proj=proj_C13, oracle=oracle_C13),
     "C14": dict(module="FV.Props.C14", theorems=["FV.Props.C14_write_frame", "FV.Props.C14_item_edit_frame"], suites=["emplace", "ops"], proj=proj_C14, oracle=oracle_C14),
     "C07": dict(module="FV.Props.C07", theorems=["FV.Props.C07_sender_delivers", "FV.Props.C07_receiver_delivers"], suites=["io"], proj=proj_C07, oracle=oracle_io_basic, post=post_io("C07")),
     "C08": dict(module="FV.Props.C08", theorems=["FV.Props.C08_sender_refines_blocking"], suites=["aio"], proj=proj_C08, oracle=oracle_io_basic, post=post_io("C08")),
